@@ -2,7 +2,7 @@ import os, sys
 sys.path.insert(0, os.path.dirname(os.path.abspath(__file__)))
 import vlib
 PLAN = {
-    "plain": ["drv_oq_seq", "drv_uf_seq", "drv_resync", "drv_wfile", "drv_codec"],
+    "plain": ["drv_oq_seq", "drv_uf_seq", "drv_resync", "drv_wfile", "drv_codec", "drv_native"],
     "sched": ["drv_oq_conc", "drv_uf_conc", "drv_rsession", "drv_wsession"],
     "asan": ["drv_rsession", "drv_wsession"],
     "pasan": ["drv_life"],
